@@ -1691,8 +1691,21 @@ pub fn from_reader_with_options<'a, R: std::io::Read + 'a, T: DeserializeOwned>(
         }
         match shared_ring.get_recent() {
             Ok(snapshot) => {
-                let text = String::from_utf8_lossy(&snapshot.bytes);
-                e.with_snippet_offset(&text, snapshot.start_line, crop_radius)
+                let mut bytes = &snapshot.bytes[..];
+                let mut start_line = snapshot.start_line;
+                if snapshot.start_offset > 0 {
+                    // Older bytes were evicted, so the window may begin in the middle of a
+                    // line. Columns counted from there would be wrong: start at the next line.
+                    match bytes.iter().position(|&b| b == b'\n') {
+                        Some(i) => {
+                            bytes = &bytes[i + 1..];
+                            start_line = start_line.saturating_add(1);
+                        }
+                        None => bytes = &[],
+                    }
+                }
+                let text = String::from_utf8_lossy(bytes);
+                e.with_snippet_offset(&text, start_line, crop_radius)
             }
             Err(_) => e, // If we can't get the snapshot, return the error as-is
         }
